@@ -91,8 +91,6 @@ def _run(ctx, quick, pool):
     items_by_cfg = {}
     n_exact = 0
     for i, b in enumerate(behs):
-        if quick and (i + ctx.seed) % 2:
-            continue                 # quick: every other behaviour (the rest is still validated as model trace below)
         reps = 1 if quick else 3
         for r in range(reps):
             ci = (i * reps + r + ctx.seed) % ncfg
@@ -205,7 +203,9 @@ def _run(ctx, quick, pool):
     ctx.notes["exploration_tolerance_vs_true_error"] = dict(
         problem="dy = -2 y dt + 0.75 y dW (Ito, closed form), adaptive Milstein, mean |y(1) - exact| over paths",
         mean_abs_error_by_tolerance=expl, status="exploration, not a verdict")
-    if expl["0.0001"] > 4.0 * expl["0.01"]:
+    if expl is None:
+        ctx.notes["exploration_tolerance_vs_true_error"]["status"] = "exploration aborted: a run hit the watchdog"
+    elif expl["0.0001"] > 4.0 * expl["0.01"]:
         ctx.violation(dict(check="tolerance_monotone", label="milstein_ito", noise="diagonal", dtype="float64", mode="natural"),
                       f"tightening rtol=atol from 1e-2 to 1e-4 grossly increases the true error: {expl}", replay=expl)
     tmark["exploration"] = round(time.time() - t0, 1)
@@ -221,11 +221,15 @@ def _run(ctx, quick, pool):
         elif "TrialBound" in label:
             caught["noForce (non-termination)"] = loop.check_seeded_defects(r, {"noForce": ("TrialBound",)}, label)["noForce"]
     ex.shutdown()
+    if not quick:
+        ctx.notes["actions_taken"] = loop.require_actions(
+            [f.result() for _, f in side_futs],
+            ("Trial", "Estimate", "Update", "ClampMin", "Accept", "Reject", "EmitOutput", "Finish"))
     tmark["waiting_for_side_tlc"] = round(time.time() - t0, 1)
 
     ctx.rule = ("TLC enumerates every adaptive behaviour (estimate class and next step size chosen adversarially among "
                 "{below a tick, 2, 4, 8} ticks) of <= 6 trials over T=8%s ticks for dt in {4,8}, dt_min in {2,4}, <= 1 "
-                "interior output; each (quick: every other one) is replayed on the real loop with scripted "
+                "interior output; each is replayed on the real loop with scripted "
                 "compute_error/update_step_size (exact), "
                 "each distinct estimate-class sequence also with the real controller; natural runs: %d problems (stiff "
                 "linear, oscillatory, example SDEs, rtol=atol in {1e-2,1e-3,1e-4}, dt_min hit, float32/64); "
